@@ -455,6 +455,23 @@ func c12People(c *fw.Ctx) {
 	}
 	fams := append(append(gedcom.FamilyNodes{}, doc.Families()...), doc2.Families()...)
 	opts := c12RandOptions(r)
+	// first of all the scores are asked by 8 goroutines at once of individuals
+	// nobody has looked at yet (a third decode): every answer must be what a
+	// lone caller gets from yet another decode
+	if pd, err := gedcom.NewDocumentFromString(text); err == nil && len(pd.Individuals()) > 1 {
+		ad, _ := gedcom.NewDocumentFromString(text)
+		score := func(l gedcom.IndividualNodes, k int) string {
+			a, b := l[k%len(l)], l[(k*5+1)%len(l)]
+			ss := a.SurroundingSimilarity(b, opts, k%2 == 0)
+			return fmt.Sprintf("%.12f %.12f %.12f", a.Similarity(b, opts), ss.WeightedSimilarity(), b.Similarity(a, opts))
+		}
+		pl, al := pd.Individuals(), ad.Individuals()
+		n := 3 * len(pl)
+		c.Count("parallel-evaluations", int64(8*n))
+		if k, par, alone := fw.ParallelThenAlone(8, n, func(k int) string { return score(pl, k) }, func(k int) string { return score(al, k) }); k >= 0 {
+			c.Violation("parallel-evaluation-differs", fmt.Sprintf("similarity / weighted surrounding similarity / swapped similarity of %s and %s asked while 7 other goroutines ask too: %s, alone: %s (options %s)", pl[k%len(pl)].Pointer(), pl[(k*5+1)%len(pl)].Pointer(), par, alone, opts), map[string]interface{}{"left_gedcom": text, "options": opts.String()})
+		}
+	}
 	pl := map[string]interface{}{"left_gedcom": text, "right_gedcom": g2.Text(), "options": opts.String()}
 	chk := func(fn string, ab, ba float64, what string) {
 		if c12Bad(ab) || c12Bad(ba) {
